@@ -553,6 +553,47 @@ pub fn gen_lex_text(rng: &mut StdRng, tab: &[OpDesc]) -> String {
     s
 }
 
+/// value-typed texts with array literals: component access at / beyond the end, dot / cross / length on arrays of every
+/// small length, arrays mixed with scalars, nested brackets, damaged brackets
+pub fn gen_arr_text(rng: &mut StdRng) -> String {
+    fn arr(rng: &mut StdRng) -> String {
+        let k = rng.random_range(0..=4);
+        let items: Vec<String> = (0..k).map(|_| match rng.random_range(0..6) {
+            0 => "x".to_string(),
+            1 => format!("{}", rng.random_range(-3..9)),
+            2 => "1/0".to_string(),
+            _ => format!("{}.{}", rng.random_range(0..9), rng.random_range(0..9)),
+        }).collect();
+        match rng.random_range(0..40) {
+            0 => format!("[{}", items.join(",")),
+            1 => format!("{}]", items.join(",")),
+            2 => format!("[[{}]]", items.join(", ")),
+            3 | 4 | 5 | 6 => "a".to_string(),
+            _ => format!("[{}]", items.join(if rng.random_bool(0.5) { ", " } else { "," })),
+        }
+    }
+    fn scalar(rng: &mut StdRng) -> String {
+        ["1", "2.5", "x", "i", "0", "-1", "3", "4", "true", "7 if false"].choose(rng).unwrap().to_string()
+    }
+    let mut s = String::new();
+    for k in 0..rng.random_range(1..=3) {
+        if k > 0 {
+            s.push_str(["+", "-", "*", "/", " dot ", " cross ", "==", "<=", ".", " if ", " else ", "^", "%", "|"].choose(rng).unwrap());
+        }
+        let piece = match rng.random_range(0..9) {
+            0 | 1 | 2 => format!("{}.{}", arr(rng), ["0", "1", "2", "3", "4", "5", "i", "-1", "1.0", "x"].choose(rng).unwrap()),
+            3 => format!("length({})", arr(rng)),
+            4 => format!("dot({}, {})", arr(rng), arr(rng)),
+            5 => format!("cross({}, {})", arr(rng), arr(rng)),
+            6 => format!("({}).{}", arr(rng), rng.random_range(0..5)),
+            7 => format!("{}({})", ["sin", "-", "abs", "to_int", "fact", "!", "length", "signum"].choose(rng).unwrap(), arr(rng)),
+            _ => if rng.random_bool(0.5) { arr(rng) } else { scalar(rng) },
+        };
+        s.push_str(&piece);
+    }
+    s
+}
+
 pub fn main_tables(_args: &[String]) -> i32 {
     println!("{}", json!({"float": table_to_json(&real_table("float")), "val": table_to_json(&real_table("val"))}));
     0
@@ -576,6 +617,10 @@ pub fn main(args: &[String]) -> i32 {
                 let (toks, _) = gen_toks(&mut rng, &t, n, 3, 0, 0.15, 0.1, true);
                 (t, to_text(&mut rng, &toks, 1.0), family.clone())
             }
+            "arr-val" => {
+                let t = real_table("val");
+                (t, gen_arr_text(&mut rng), family.clone())
+            }
             "dmg-float" | "dmg-val" => {
                 let t = real_table(if family == "dmg-float" { "float" } else { "val" });
                 // the value table's `.`/if/else and comparison chains are fine; its literals must be plain
@@ -596,9 +641,11 @@ pub fn main(args: &[String]) -> i32 {
                 (t, s, "calls".to_string())
             }
             "chain" => {
-                let sizes = [9usize, 17, 31, 32, 33, 63, 64, 65, 66, 127, 128, 129, 130, 191, 192, 193, 194, 257, 300];
+                let max_chain = o.num("max-chain", 300) as usize;
+                let sizes: Vec<usize> = [9usize, 17, 31, 32, 33, 63, 64, 65, 66, 127, 128, 129, 130, 191, 192, 193, 194, 257, 300]
+                    .into_iter().filter(|s| *s <= max_chain).collect();
                 let n_ops = sizes[(i as usize) % sizes.len()];
-                let pat = ((i as usize) / sizes.len() % 6) as u8;
+                let pat = (((i as usize) / sizes.len() + stream as usize) % 6) as u8;
                 let (t, s) = gen_chain(&mut rng, n_ops, pat);
                 (t, s, format!("chain{n_ops}-{pat}"))
             }
